@@ -25,6 +25,27 @@ print('over-report: sent', sent2, 'outstanding in controller', outstanding)
 if outstanding > 2:
     bad.append(f'after an over-report for one connection the host has {outstanding} packets in a controller that advertised 2 buffers')
 
+# (d) drain() must wait for packets that are still queued for lack of a free buffer
+async def drain_waits():
+    sent3 = []
+    q3 = host.DataPacketQueue(max_packet_size=27, max_in_flight=1, send=sent3.append)
+    q3.enqueue('b0', 2); q3.on_packets_completed(1, 2)      # connection 2 had traffic before
+    q3.enqueue('a1', 1)                                     # connection 1 takes the only buffer
+    q3.enqueue('b1', 2)                                     # b1 waits in the queue
+    try:
+        await asyncio.wait_for(q3.drain(2), 0.05)
+        bad.append('drain(2) returned while its packet b1 has not even been handed to the controller')
+    except asyncio.TimeoutError:
+        pass
+    except ValueError as e:
+        bad.append(f'drain(2) raised {e!r} although a packet of connection 2 is queued')
+    q3.on_packets_completed(1, 1); q3.on_packets_completed(1, 2)
+    try:
+        await asyncio.wait_for(q3.drain(2), 0.05)
+    except asyncio.TimeoutError:
+        bad.append('drain(2) still waiting after everything completed')
+asyncio.run(drain_waits())
+
 async def pipe():
     out = []
     p = utils.FlowControlAsyncPipe(lambda: None, lambda: None, write_to_sink=out.append, threshold=100)
